@@ -21,6 +21,7 @@ an explicit exception), and ``task.do`` on an environment prepared from the
 *requested* injected tasks must return what the *requested* function yields
 (resp. ``/bin/echo`` must print the requested argument list).
 """
+import errno
 import functools
 import os
 import shutil
@@ -41,26 +42,31 @@ from vlib.core import Failure, Outcome, exc_failure
 
 ID = 'C15'
 LEVEL = 'exploration'
-RULE = ('case = creation history (3 in 4): 2-4 base tasks (names from a pool of 4, repeated names on '
-        'distinct objects in 1 list out of 4) and 1-10 (thorough: 1-16) operations: Use.from_func / using on a '
-        'function out of 8 (two def alpha, def beta, two lambdas, two callables with __qualname__ only, '
-        'a functools.partial named alpha) or stacked on an existing Use, injected task from the live pool '
-        '(base tasks, previously generated Use tasks and RunTasks; index modulo pool size), key '
-        "result/alt/stdout/None, positional or one of 2 keyword names, hard/soft, serialize; get_task "
-        'repeated; map(f); RunTaskFactory.from_executable(/bin/echo) / from_task with 4 default-argument '
-        'templates, factory name echo/fb/None, copy(); make(name n0/n1/None, extra_args list or tuple, '
-        'format keywords, deps, soft_deps); UseRun.from_factory / map / call; task_stats / test_stats / '
-        'test_stats_by_labels with 2 names; Use._CACHE is emptied at the start of every case. Every '
-        'returned task is compared by identity with the tasks of all earlier requests, its '
-        'depends_on / soft_depends_on with the requested sets, and it is executed once (task.do on an '
-        'Env built from the requested tasks; factory tasks really spawn /bin/echo). The history ends '
-        'with a job list drawn from the live pool that is closed and name-checked. case = job graph '
-        '(1 in 4): DAG of 1-8 plain tasks, hard/soft edges to earlier nodes, names from a pool of 4, root list with '
-        'repeats; close_dependency_graph, check_unique_task_names and collect_tasks (through a job '
-        'file) against a DFS over object identities. non-trivial = history in which two different '
-        'requests produced tasks with the same name (or one of them an explicit error), or job graph '
-        'whose closure is strictly larger than the root list with a repeated name somewhere in the '
-        'graph; distinct = structural hash of the case')
+RULE = ('case = creation history (8 in 10): 2-4 base tasks (names from a pool of 4; repeated names on '
+        'distinct objects in 1 history out of 5), an initial run-task factory, and 1-10 (thorough: 1-16) '
+        'operations drawn from one of five mixes (wide / Use-centred / stacking-centred / factory-centred / '
+        'statistics-centred): Use.from_func / using on one of 9 functions (two "def alpha", "def beta", two '
+        'lambdas, two callables with __qualname__ only, two functools.partial applications named alpha) or '
+        'stacked on an existing Use; injected task from the live pool (base tasks, Use tasks, RunTasks and '
+        'stats tasks generated earlier; pool positions modulo the pool size, wrappers and UseRun objects '
+        'counted from the most recent); key result / alt / stdout / None; positional or keyword kw0 / kw1 / kw2; '
+        'hard / soft; serialize; get_task again; the same request rebuilt from scratch with the keyword '
+        'injections stacked in the opposite order; map(f); RunTaskFactory.from_executable(/bin/echo) / '
+        'from_task with 4 default-argument templates and factory name echo / fb / None, copy(); '
+        'make(name n0 / n1 / None, extra_args as list or tuple, format keywords, deps, soft_deps); '
+        'UseRun.from_factory / map / call; task_stats / test_stats / test_stats_by_labels with 2 names. '
+        'Use._CACHE is emptied at the start of every case. Every returned task is compared by identity '
+        'with the tasks of all earlier requests, its depends_on / soft_depends_on with the requested sets, '
+        'and it is executed once (task.do on an Env built from the requested tasks; factory tasks really '
+        'spawn /bin/echo). The history ends with a job list drawn from the live pool that is closed and '
+        'name-checked. case = job graph (2 in 10): DAG of 1-8 plain tasks, hard / soft edges to earlier '
+        'nodes, 8 names with two of them favoured, root list with repeats; close_dependency_graph, '
+        'check_unique_task_names and collect_tasks (through a job file) against a DFS over object '
+        'identities. non-trivial = history in which two different requests receive the same name under the '
+        'documented naming scheme (sorted hard-dependency names + "." + function name; requested or hashed '
+        'name + "." + factory name), decided from the requests before the code is called; or job graph with '
+        'a repeated name whose closure is strictly larger than its root list. distinct = structural hash '
+        'of the case')
 ASSUMPTIONS = [
     'a request is identified by the function OBJECT, the injected (task, key) pairs with their position '
     'or keyword name, and the dependency kind; serialize is not part of the request (requests that '
@@ -75,8 +81,9 @@ ASSUMPTIONS = [
     'identical task_stats/test_stats requests carry no same-task assertion (the returned '
     'EvalTestTask is documented as a new task); only sharing between different requests is checked',
     'an exception from get_task()/make()/stats is accepted as the "explicit error" only when an '
-    'earlier, different request used the same function name (resp. the same factory name and the '
-    'same requested task name / both unnamed, resp. the same stats name)',
+    'earlier request that was not literally the same used the same function name (resp. the same '
+    'factory name and the same requested task name / both unnamed, resp. the same stats name); a '
+    'request literally identical to an earlier one must be answered with the task of that one',
     'stacked positional injection: the outer decorator provides the first positional argument '
     '(documented in valjean/cosette/use.py); the expected result is computed by calling the '
     'requested function directly on the model values',
@@ -84,9 +91,12 @@ ASSUMPTIONS = [
     "the dependency graph's business, C16)",
     'command-line tokens are plain words (no leading dash, no backslash) so that /bin/echo prints '
     'them verbatim',
+    'serialize=True on a task whose generated name is longer than a file name may be (a Use over two '
+    'tasks with hashed names) fails with ENAMETOOLONG when the task runs: counted as excluded, the '
+    'property does not speak about output directories',
 ]
-BUDGET = {'quick': {'cases': 4000, 'shards': 16, 'seconds': 150, 'shrink_s': 20},
-          'thorough': {'cases': 160000, 'shards': 16, 'seconds': 840, 'shrink_s': 45}}
+BUDGET = {'quick': {'cases': 20000, 'shards': 16, 'seconds': 150, 'shrink_s': 20},
+          'thorough': {'cases': 800000, 'shards': 16, 'seconds': 840, 'shrink_s': 45}}
 # fractions of generated cases showing the class at least once; about half of what the quick tier measures
 FLOORS = {'nt-name-collision': 0.15, 'nt-job-closure-with-repeated-names': 0.03, 'req-use-stacked': 0.08,
           'req-use-kw': 0.15, 'req-use-mixed': 0.05, 'req-use-soft': 0.1, 'req-make-named': 0.1,
@@ -98,7 +108,6 @@ FLOORS = {'nt-name-collision': 0.15, 'nt-job-closure-with-repeated-names': 0.03,
           'req-make-identical-repeated': 0.025, 'req-rebuild': 0.03}
 
 NAMES = ['t0', 't1', 't2', 't3']
-KWARGS = ['kw0', 'kw1']
 FACTORY_NAMES = [None, 'echo', 'fb']
 MAKE_NAMES = [None, 'n0', 'n1']
 DARGS = [[], ['d'], ['{x}'], ['p{x}', '{y}']]
@@ -112,12 +121,12 @@ JOBFILE = os.path.join(os.path.dirname(os.path.dirname(os.path.abspath(__file__)
 # generation (module constants: Hypothesis caches them)
 
 # NB: one_of() drops repeated element strategies, so weights are expressed with sampled_from.
-_FN = st.sampled_from([0, 0, 1, 1, 2, 3, 4, 5, 6, 7])
+_FN = st.sampled_from([0, 0, 1, 1, 2, 3, 4, 5, 6, 7, 8])
 _TASK = st.sampled_from([0, 1, 2, 3] * 4 + list(range(4, 24)))
 _TASKS = st.lists(_TASK, max_size=2)
 _SOME_TASKS = st.one_of(st.just([]), _TASKS)
 _KEY = st.sampled_from([0, 0, 0, 1, 2])
-_KWARG = st.sampled_from([None, None, None, 'kw0', 'kw1'])
+_KWARG = st.sampled_from([None, None, None, None, 'kw0', 'kw1', 'kw2'])
 _POOL = st.sampled_from([0, 1] * 6 + list(range(2, 14)))
 _EXTRA = st.one_of(st.none(), st.lists(st.sampled_from(TOKENS), max_size=2))
 _FMT = st.dictionaries(st.sampled_from(['x', 'y']), st.sampled_from(['1', '2']), max_size=2)
@@ -129,7 +138,7 @@ _USE_FIELDS = {
     'ser': st.sampled_from([False, False, False, True]), 'using': st.booleans(),
     'get': st.sampled_from([True, True, True, False])}
 _USE = st.fixed_dictionaries(_USE_FIELDS)
-_STACK = st.fixed_dictionaries(dict(_USE_FIELDS, on=_POOL, kwarg=st.sampled_from([None, 'kw0', 'kw1'])))
+_STACK = st.fixed_dictionaries(dict(_USE_FIELDS, on=_POOL, kwarg=st.sampled_from([None, 'kw0', 'kw1', 'kw2'])))
 _GET = st.fixed_dictionaries({'op': st.just('get'), 'w': _POOL})
 _REBUILD = st.fixed_dictionaries({'op': st.just('rebuild'), 'w': _POOL})
 _MAP = st.fixed_dictionaries({'op': st.just('map'), 'w': _POOL, 'fn': _FN})
@@ -153,13 +162,13 @@ _STATS = st.fixed_dictionaries({
     'by': st.sampled_from([('l',), ('l', 'm')])})
 # focused ingredients: the same few again and again, so that requests differ in one component
 _USE_NARROW = st.fixed_dictionaries({
-    'op': st.just('use'), 'fn': st.sampled_from([0, 1, 3, 4, 7]), 'on': st.none(), 't': st.integers(0, 1),
+    'op': st.just('use'), 'fn': st.sampled_from([0, 1, 3, 4, 7, 8]), 'on': st.none(), 't': st.integers(0, 1),
     'key': st.sampled_from([0, 0, 1]), 'kwarg': st.sampled_from([None, None, 'kw0']),
     'soft': st.sampled_from([False, False, True]), 'ser': st.just(False), 'using': st.booleans(),
     'get': st.just(True)})
 _MAKE_NARROW = st.fixed_dictionaries({
     'op': st.just('make'), 'f': st.integers(0, 1), 'name': st.sampled_from([None, 'n0']),
-    'extra': st.one_of(st.none(), st.lists(st.sampled_from(['a', 'b']), max_size=1)),
+    'extra': st.one_of(st.none(), st.lists(st.sampled_from(['a', 'b']), max_size=2)),
     'tup': st.just(False), 'kw': st.sampled_from([{}, {}, {'x': '1'}]),
     'deps': st.lists(st.integers(0, 1), max_size=1), 'soft': st.lists(st.integers(0, 1), max_size=1)})
 _STATS_NARROW = st.fixed_dictionaries({
@@ -167,8 +176,9 @@ _STATS_NARROW = st.fixed_dictionaries({
     'tasks': st.lists(st.integers(0, 2), min_size=1, max_size=2), 'desc': st.sampled_from(['', '', 'about']),
     'labels': st.sampled_from([None, None, {'l': 'v'}]), 'by': st.sampled_from([('l',), ('l', 'm')])})
 _STACK_NARROW = st.fixed_dictionaries(dict(
-    _USE_FIELDS, on=st.integers(0, 1), t=st.integers(0, 2), key=st.just(0), ser=st.just(False),
-    kwarg=st.sampled_from([None, 'kw0', 'kw0', 'kw1', 'kw1']), soft=st.sampled_from([False, False, False, True])))
+    _USE_FIELDS, on=st.integers(0, 1), t=st.integers(0, 5), key=st.just(0), ser=st.just(False),
+    kwarg=st.sampled_from([None, 'kw0', 'kw0', 'kw1', 'kw1', 'kw2', 'kw2']),
+    soft=st.sampled_from([False, False, False, True])))
 _OPS = {'stack-narrow': _STACK_NARROW, 'rebuild': _REBUILD, 'use': _USE, 'stack': _STACK, 'get': _GET, 'map': _MAP, 'factory': _FACTORY, 'copy': _COPY,
         'make': _MAKEOP, 'userun': _USERUN, 'urmap': _URMAP, 'urcall': _URCALL, 'stats': _STATS,
         'use-narrow': _USE_NARROW, 'make-narrow': _MAKE_NARROW, 'stats-narrow': _STATS_NARROW}
@@ -176,7 +186,7 @@ _MIXES = {
     'wide': {'use': 5, 'stack': 3, 'get': 1, 'rebuild': 1, 'map': 2, 'factory': 1, 'copy': 1, 'make': 4, 'userun': 1,
              'urmap': 2, 'urcall': 3, 'stats': 2},
     'use': {'use-narrow': 6, 'stack': 1, 'map': 2, 'get': 1},
-    'stack': {'use-narrow': 3, 'stack-narrow': 5, 'rebuild': 2, 'get': 1},
+    'stack': {'use-narrow': 2, 'stack-narrow': 6, 'rebuild': 3, 'get': 1, 'make-narrow': 1},
     'make': {'make-narrow': 6, 'copy': 1, 'factory': 1, 'urmap': 1, 'urcall': 2},
     'stats': {'stats-narrow': 4, 'use-narrow': 2, 'make-narrow': 1},
 }
@@ -252,8 +262,12 @@ def _make_funcs():
     lam1 = lambda *args, **kwargs: _res('lambda#1', args, kwargs)   # noqa: E731
     part = functools.partial(_tagged, 'alpha#partial')
     functools.update_wrapper(part, first)     # as valjean.eponine.tripoli4.use.partial does
+    # a second partial application of the same function to another argument: what
+    # tripoli4.use.using_parse_result(factory, batch_number) builds for two batch numbers
+    part2 = functools.partial(_tagged, 'alpha#partial2')
+    functools.update_wrapper(part2, first)
     return [first, second, beta, lam0, lam1, _QualnameOnly('gamma#0', 'gamma'),
-            _QualnameOnly('gamma#1', 'gamma'), part]
+            _QualnameOnly('gamma#1', 'gamma'), part, part2]
 
 
 def _fname(func):
@@ -439,9 +453,12 @@ class _World:
                 self.reqs.append({'kind': 'orphan', 'same': None, 'diff': ('orphan', uid), 'uid': uid,
                                   'conflict': None})
 
-    def error_allowed(self, kind, conflict, diff):
-        return any(req['kind'] == kind and req['conflict'] == conflict and req['diff'] != diff
-                   for req in self.reqs)
+    def error_allowed(self, kind, conflict, same):
+        """An exception is the 'explicit error' of the property when an earlier request used the
+        same function name (factory and task name, statistics name) without being literally the
+        same request; an identical earlier request must be answered with its task."""
+        return any(req['kind'] == kind and req['conflict'] == conflict
+                   and (req['same'] is None or req['same'] != same) for req in self.reqs)
 
     def check_deps(self, task, hard, soft, what, feature):
         good = True
@@ -502,7 +519,7 @@ class _World:
         except Exception as exc:   # the property allows an explicit error for a conflicting request
             if any(r['kind'] == 'use' and r['same'] == same for r in self.reqs):
                 self.exc('use_identical_raises', exc, feature)
-            elif self.error_allowed('use', fname, named):
+            elif self.error_allowed('use', fname, same):
                 self.labels.add('explicit-error')
                 self.out.nontrivial = True
             else:
@@ -536,6 +553,15 @@ class _World:
         try:
             env_up, status = task.do(env=env, config=self.config())
             result = env_up[task.name]['result']
+        except OSError as exc:
+            if exc.errno == errno.ENAMETOOLONG and wmod['ser']:
+                # serialize=True makes a directory called like the task; the name of a task over two
+                # hash-named tasks exceeds what a file system accepts.  Not this property's business.
+                self.out.excluded += 1
+                self.labels.add('excluded-serialize-name-too-long')
+                return uid
+            self.exc('use_do_raises', exc, shape)
+            return uid
         except Exception as exc:
             self.exc('use_do_raises', exc, shape)
             return uid
@@ -616,7 +642,7 @@ class _World:
         except Exception as exc:
             if any(r['kind'] == 'make' and r['same'] == same for r in self.reqs):
                 self.exc('make_identical_raises', exc, feature)
-            elif self.error_allowed('make', conflict, diff):
+            elif self.error_allowed('make', conflict, same):
                 self.labels.add('explicit-error')
                 self.out.nontrivial = True
             else:
@@ -777,7 +803,24 @@ class _World:
 
     def op_userun(self, opn):
         fidx = opn['f'] % len(self.default_factory())
-        self.useruns.append({'obj': UseRun.from_factory(self.factories[fidx]['obj']), 'f': fidx, 'posts': []})
+        obj = UseRun.from_factory(self.factories[fidx]['obj'])
+        self.useruns.append({'obj': obj, 'f': fidx, 'posts': [], 'made': self.watch(obj.factory)})
+
+    @staticmethod
+    def watch(factory):
+        """Record the tasks that make() of this factory object returns (a UseRun calls it out of
+        sight).  Returns the list that receives them."""
+        made = getattr(factory, 'c15_made', None)
+        if made is None:
+            made, original = [], factory.make
+
+            def make(**kwargs):
+                task = original(**kwargs)
+                made.append(task)
+                return task
+            factory.c15_made = made
+            factory.make = make
+        return made
 
     def default_userun(self):
         if not self.useruns:
@@ -790,21 +833,23 @@ class _World:
         # UseRun.map works on a copy of the factory
         fmod = self.factories[umod['f']]
         self.new_factory(obj.factory, {k: v for k, v in fmod.items() if k != 'obj'})
-        self.useruns.append({'obj': obj, 'f': len(self.factories) - 1, 'posts': umod['posts'] + [opn['fn']]})
+        self.useruns.append({'obj': obj, 'f': len(self.factories) - 1, 'posts': umod['posts'] + [opn['fn']],
+                             'made': self.watch(obj.factory)})
 
     def op_urcall(self, opn):
         umod = self.default_userun()[-1 - opn['u'] % len(self.useruns)]
         fidx, posts = umod['f'], umod['posts']
-        _same, diff, conflict, _cli, _hard, _soft = self.make_keys(fidx, opn)
+        make_same, _diff, conflict, _cli, _hard, _soft = self.make_keys(fidx, opn)
         kwargs = self.make_kwargs(opn)
         feature = f'posts={min(len(posts), 2)}'
         self.labels.add('req-userun-' + feature)
+        del umod['made'][:]
         try:
             use = umod['obj'](kwarg=opn['kwarg'], **kwargs)(self.funcs[opn['fn']])
             final = use.get_task()
         except Exception as exc:
             fnames = {_fname(self.funcs[f]) for f in posts + [opn['fn']]}
-            if (self.error_allowed('make', conflict, diff)
+            if (self.error_allowed('make', conflict, make_same)
                     or any(r['kind'] == 'use' and r['conflict'] in fnames for r in self.reqs)):
                 self.labels.add('explicit-error')
                 self.out.nontrivial = True
@@ -830,7 +875,26 @@ class _World:
                       f'the pipeline of {final!r} ends in {chain[0]!r}, not in a RunTask')
             self.orphan(final, *chain)
             return
-        uid = self.make_request(fidx, opn, lambda: chain[0])
+        # what make() really returned to the UseRun, and what the pipeline hangs on: the same task,
+        # or two interchangeable ones
+        made = umod['made'][-1] if umod['made'] else chain[0]
+        uid = self.make_request(fidx, opn, lambda: made)
+        if uid is not None and chain[0] is not made:
+            below = self.uids.get(id(chain[0]))
+            if below is None or self.cid(below) != self.cid(uid):
+                # the stage above the RunTask was requested on `made` and came back as the task of
+                # an earlier request on another task: if both carry one name this is the sharing of
+                # Use tasks between same-named injected tasks, seen from below
+                same_name = getattr(chain[0], 'name', None) == made.name
+                self.fail('use_shared' if same_name else 'userun_chain',
+                          'C15/use_shared/hard/same-named-tasks' if same_name
+                          else 'C15/userun_chain/other-run-task',
+                          f'the UseRun got {made!r} from its factory for command '
+                          f'{self.show("make", self.make_keys(fidx, opn)[1])}, but the pipeline of '
+                          f'{final!r} runs on {chain[0]!r}, a task generated for a different request')
+                self.orphan(final, *chain)
+                return
+            uid = below
         for post, stage in zip(posts, chain[1:]):
             if uid is None:
                 self.orphan(final, *chain)
@@ -880,7 +944,7 @@ class _World:
         try:
             evalt = func(**kwargs)
         except Exception as exc:
-            if self.error_allowed('stats', name, diff):
+            if self.error_allowed('stats', name, None):
                 self.labels.add('explicit-error')
                 self.out.nontrivial = True
             else:
@@ -1013,6 +1077,13 @@ def _check_job(out, roots, universe, origin, labels):
         labels.add(f'job-{origin}-closure-larger-than-roots')
     if len(roots) > len({id(t) for t in roots}):
         labels.add(f'job-{origin}-root-listed-twice')
+    all_names = [t.name for t in universe]
+    if origin == 'graph' and len(set(all_names)) < len(all_names):
+        if len(want) > len({id(t) for t in roots}):
+            out.nontrivial = True
+            labels.add('nt-job-closure-with-repeated-names')
+        if not dup:
+            labels.add('job-graph-duplicate-name-outside-closure')
     try:
         got = close_dependency_graph(roots)
     except Exception as exc:
@@ -1078,14 +1149,8 @@ def _run_job(case, out):
             any(n['soft'] for i, n in enumerate(case['nodes']) if i):
         labels.add('job-graph-hard-and-soft-edges')
     res = _check_job(out, roots, nodes, 'graph', labels)
-    all_names = [t.name for t in nodes]
     if res is not None:
         want, dup = res
-        if len(want) > len({id(t) for t in roots}) and len(set(all_names)) < len(all_names):
-            out.nontrivial = True
-            labels.add('nt-job-closure-with-repeated-names')
-        if not dup and len(set(all_names)) < len(all_names):
-            labels.add('job-graph-duplicate-name-outside-closure')
         # the whole path a command takes: job file -> closure -> name check
         module = dyn_import(JOBFILE)
         module.CURRENT = list(roots)
@@ -1132,31 +1197,45 @@ def run_case(case):
     return out
 
 
-def _has_use_collision(case, failure):
-    """Predicate of the (possible) known finding on Use._CACHE: the failing request shares the
-    task of an earlier one (signature C15/use_shared/... or C15/stats_shared/...)."""
-    return failure.signature.startswith(('C15/use_shared/', 'C15/stats_shared/'))
+def _known_use_sharing(case, failure):
+    """Predicate for a known finding on the process-wide Use cache: the failure is a task of an
+    earlier Use / stats request handed out for a different one, in a creation history."""
+    return (case.get('kind') == 'hist'
+            and failure.signature.startswith(('C15/use_shared/', 'C15/stats_shared/')))
 
 
-KNOWN_PREDICATES = {'use_name_collision': _has_use_collision}
+def _known_make_sharing(case, failure):
+    """Predicate for a known finding on RunTaskFactory.cache: a task of an earlier make() request
+    handed out for a different one, in a history that calls make (or a UseRun) at least twice."""
+    makes = [op for op in case.get('ops', []) if op.get('op') in ('make', 'urcall')]
+    return (case.get('kind') == 'hist' and len(makes) >= 2
+            and failure.signature.startswith('C15/make_shared/'))
+
+
+KNOWN_PREDICATES = {'use_cache_shares_task': _known_use_sharing,
+                    'factory_cache_shares_task': _known_make_sharing}
 
 MANIFEST = {
     'text': ('Generated search (Hypothesis) over creation histories of argument-injection wrappers '
-             '(Use.from_func / using / stacking / map / get_task), run-task factories (from_executable, '
-             'from_task, copy, make), UseRun pipelines and the statistics helpers, with same-named '
-             'functions, lambdas, hard/soft, positional/keyword injection, different keys, arguments '
-             'and dependencies, plus generated job graphs with repeated names. Oracle = a registry '
-             'keyed by the request (object identities, never task names): identical request => same '
-             'task object, different request => different object or explicit error; every new task is '
-             'executed on an environment built from the requested tasks and must return what the '
-             'requested function gives on the requested values (factory tasks really run /bin/echo '
-             'and must print the requested argument list); dependency sets equal the requested sets; '
-             'close_dependency_graph / check_unique_task_names / collect_tasks against a DFS over '
-             'object identities. Exploration, not proof: histories of at most 10 (thorough 16) steps '
-             'over a pool of 8 functions and 4 task names.'),
-    'note': ('Requests that differ only by two distinct task objects of the same name, or only in '
-             'serialize, carry no identity assertion; subprocess_args of make() are not generated; '
-             'cyclic job graphs are excluded (close_dependency_graph does not terminate on them).'),
+             '(Use.from_func / using / stacking / rebuilt identical stacks / map / get_task), run-task '
+             'factories (from_executable, from_task, copy, make), UseRun pipelines and the statistics '
+             'helpers, with same-named functions, lambdas, partial applications, hard / soft, positional / '
+             'keyword injection, different keys, arguments and dependencies, plus generated job graphs '
+             'with repeated names. Oracle = a registry keyed by the request (object identities, never '
+             'task names or caches): identical request => same task object, different request => '
+             'different object or explicit error; every new task is executed on an environment built '
+             'from the requested tasks and must return what the requested function gives on the '
+             'requested values (factory tasks really run /bin/echo and must print the requested argument '
+             'list); dependency sets equal the requested sets; close_dependency_graph / '
+             'check_unique_task_names / collect_tasks against a DFS over object identities. '
+             'Exploration, not proof: histories of at most 10 (thorough 16) steps over 9 functions, '
+             '4 task names, 3 factory names.'),
+    'note': ('Requests that differ only by two interchangeable task objects (generated for equivalent '
+             'requests, e.g. by two copies of a factory) or only in serialize carry no identity '
+             'assertion; identical statistics requests carry no same-task assertion; subprocess_args of '
+             'make() are not generated; cyclic job graphs are excluded (close_dependency_graph does not '
+             'terminate on them); an exception counts as the allowed explicit error only when an earlier '
+             'different request used the same function / factory+task / statistics name.'),
     'technique': 'property-based testing (Hypothesis), history of operations against a request registry '
                  '(reference model) + behavioural execution of every generated task',
     'design_ref': 'DESIGN.md section 3, C15',
